@@ -299,10 +299,12 @@ def verif_fetch_query(table_id, formulas, private, query_items):
   td = e.fetch_table(table_id, formulas=formulas, private=private, query=query)
   return actions.get_action_repr(td)
 
-def verif_apply_py(kind, payload):
-  """Run a harness-side python helper inside the engine process (module vlib.inproc)."""
-  from vlib import inproc
-  return getattr(inproc, kind)(_eng(), payload)
+def verif_py(modname, funcname, payload=None):
+  """Run a harness-side python helper inside the engine process: <modname>.<funcname>(engine, payload).
+  modname is a module of /verif (e.g. 'props.C23_inproc'); helpers must return marshal-safe plain data."""
+  import importlib
+  mod = importlib.import_module(modname)
+  return getattr(mod, funcname)(_eng(), payload)
 
 def verif_snapshot(formulas=True):
   """Every table the engine knows, fetched and encoded exactly as the exported fetch_table does."""
